@@ -13,12 +13,24 @@ pub fn df_len(id: &str) -> Option<usize> {
 }
 
 /// DFENC id tok.. -> "<pattern> <bits>" | ERR | BAD-OP
+thread_local! {
+    pub static FILL: std::cell::Cell<u8> = std::cell::Cell::new(0);
+}
+
+pub fn op_dfenc_fill(fill: u8, id: &str, words: &[&str]) -> String {
+    FILL.with(|f| f.set(fill));
+    let r = op_dfenc(id, words);
+    FILL.with(|f| f.set(0));
+    r
+}
+
 pub fn op_dfenc(id: &str, words: &[&str]) -> String {
     let mut t = match TokIter::new(words) {
         Some(t) => t,
         None => return "BAD-OP".into(),
     };
-    let mut buf = [0u8; 16];
+    // the scratch buffer is zero for DFENC and all ones for DFENCF: a field must write every one of its bits
+    let mut buf = [FILL.with(|f| f.get()); 16];
     let (r, off) = {
         let mut asm = Assembler::new(&mut buf, 0);
         let r = gdfs::df_encode(id, &mut t, &mut asm);
